@@ -90,6 +90,19 @@ type Run struct {
 	open       map[string]string // class -> description of open findings for this property
 	crumb      *os.File
 	nviolFiles int
+	statePath  string
+	perClass   map[string]int
+}
+
+// FinishEarly writes the state gathered so far (marked done) and exits the
+// child. Used by in-process watchdogs after they have recorded their verdict.
+func (r *Run) FinishEarly(code int) {
+	st := r.state(true)
+	b, _ := json.Marshal(st)
+	if r.statePath != "" {
+		os.WriteFile(r.statePath, b, 0o644)
+	}
+	os.Exit(code)
 }
 
 // Thorough reports whether the tier is "thorough".
@@ -206,7 +219,11 @@ func (r *Run) Violate(class, brief string, witness interface{}) {
 		return
 	}
 	v := Violation{Class: class, Brief: brief}
-	if r.nviolFiles < 10 {
+	if r.perClass == nil {
+		r.perClass = map[string]int{}
+	}
+	r.perClass[class]++
+	if r.nviolFiles < 30 && r.perClass[class] <= 3 {
 		r.nviolFiles++
 		dir := filepath.Join(r.Dir, "replay", r.ID)
 		os.MkdirAll(dir, 0o755)
@@ -305,6 +322,7 @@ func (r *Run) state(done bool) *State {
 // RunChild executes one batch in this process and writes its state file.
 func RunChild(m *Monitor, dir, tier string, seed int64, batch, nbatch int, statePath, crumbPath string, only int) {
 	r := newRun(m, dir, tier, seed, batch, nbatch)
+	r.statePath = statePath
 	if crumbPath != "" {
 		f, err := os.OpenFile(crumbPath, os.O_CREATE|os.O_RDWR|os.O_TRUNC, 0o644)
 		if err == nil {
